@@ -206,13 +206,14 @@ Definition is_xml (ct : str) : bool :=
   || (starts_with s_image_ ct && ends_with s_plus_xml ct).
 Definition ct_has_charset (ct : str) : bool := starts_with s_text_ ct || is_xml ct.
 Definition rct_del (hl : pairs) : pairs := snd (ct_pop hl).
-Definition rct_set (v : pyv) (hl : pairs) : pairs * option str :=
+(* [dcs] = self.default_charset, a class attribute meant to be overridden ("UTF-8"; empty = None / falsy) *)
+Definition rct_set (dcs : str) (v : pyv) (hl : pairs) : pairs * option str :=
   match v with
   | PNone | PStr [] => (rct_del hl, None)
   | PStr ct =>
       let has := contains s_charset_eq ct in
-      let ct' := if negb has && (str_eqb ct s_text_html || ct_has_charset ct)
-                 then ct ++ s_semi_charset ++ s_utf8 else ct in
+      let ct' := if negb has && nonempty dcs && (str_eqb ct s_text_html || ct_has_charset ct)
+                 then ct ++ s_semi_charset ++ dcs else ct in
       (ct_put ct' hl, None)
   | _ => (hl, Some TypeError)
   end.
@@ -287,14 +288,14 @@ Inductive ctop :=
 | TRaw (k v : str)           (* headerlist.append((k, v)) *)
 | TRawDel.                   (* drop every Content-Type line *)
 
-Definition ct_step (hl : pairs) (o : ctop) : pairs * val :=
+Definition ct_step (dcs : str) (hl : pairs) (o : ctop) : pairs * val :=
   let ev (e : option str) : val := match e with None => VNone | Some x => VErr x end in
   match o with
   | TGet T_charset => (hl, rcharset_get hl)
   | TGet T_content_type => (hl, rct_get hl)
   | TGet T_params => (hl, rparams_get hl)
   | TSet T_charset v => let '(l, e) := rcharset_set v hl in (l, ev e)
-  | TSet T_content_type v => let '(l, e) := rct_set v hl in (l, ev e)
+  | TSet T_content_type v => let '(l, e) := rct_set dcs v hl in (l, ev e)
   | TSet T_params v => let '(l, e) := rparams_set v hl in (l, ev e)
   | TDel T_charset => (rcharset_del hl, VNone)
   | TDel T_content_type => (rct_del hl, VNone)
@@ -302,12 +303,12 @@ Definition ct_step (hl : pairs) (o : ctop) : pairs * val :=
   | TRaw k v => (hl ++ [(k, v)], VNone)
   | TRawDel => (hg_del ct_key hl, VNone)
   end.
-Fixpoint ct_run (ops : list ctop) (hl : pairs) : list val :=
+Fixpoint ct_run (dcs : str) (ops : list ctop) (hl : pairs) : list val :=
   match ops with
   | [] => []
-  | o :: ops' => let '(hl', r) := ct_step hl o in VList [r; pairs_val hl'] :: ct_run ops' hl'
+  | o :: ops' => let '(hl', r) := ct_step dcs hl o in VList [r; pairs_val hl'] :: ct_run dcs ops' hl'
   end.
-Definition run_ct (init : pairs) (ops : list ctop) : val := VList (ct_run ops init).
+Definition run_ct (dcs : str) (init : pairs) (ops : list ctop) : val := VList (ct_run dcs ops init).
 
 (* ================================================================== Request content_type / charset *)
 (* _content_type_raw = environ_getter("CONTENT_TYPE", "") *)
